@@ -853,9 +853,15 @@ func onlyErrorReturnsFrom(b *ssa.BasicBlock) bool {
 
 // regexpPattern finds the constant pattern a package-level *regexp.Regexp is compiled from.
 func regexpPattern(P *Program, pkg, name string) (string, token.Pos) {
-	g := P.Global(pkg, name)
 	pat := ""
 	var pos token.Pos
+	var g *ssa.Global
+	if sp := P.ssaPkg(pkg); sp != nil {
+		g, _ = sp.Members[name].(*ssa.Global)
+	}
+	if g == nil {
+		return "", token.NoPos // the recogniser is gone: the caller reports that it cannot establish its shape
+	}
 	for _, fn := range P.FuncsIn(pkg) {
 		eachInstr(fn, func(_ *ssa.BasicBlock, _ int, in ssa.Instruction) {
 			st, ok := in.(*ssa.Store)
@@ -951,7 +957,7 @@ func c03R5(c *Ctx) {
 	P := c.P
 	pat, pos := regexpPattern(P, "servitor/jtp", "statusLineRegexp")
 	if pat == "" {
-		c.bad("servitor/jtp.statusLineRegexp/pattern", P.Pos(pos), "servitor/jtp.statusLineRegexp", "the status line pattern is not a compile-time constant: its shape cannot be checked")
+		c.bad("servitor/jtp.statusLineRegexp/pattern", P.Pos(pos), "servitor/jtp.statusLineRegexp", "the status line is no longer recognised by a package-level regular expression with a constant pattern: that it is anchored and captures exactly three digits cannot be established")
 		return
 	}
 	re, err := syntax.Parse(pat, syntax.Perl)
